@@ -13,8 +13,11 @@ def default_params(tier):
     p = progmod.default_params(tier, forbid=["aliases", "negative"], force=["provide", "inject_default"],
                                provide_bias=2)
     p["budget_mult"] = 5000
+    p["only_den"] = 2
     p["max_renders"] = 4 if tier == "quick" else 6
-    p["size_hi"] = 30 if tier == "quick" else 60
+    p["size_hi"] = 40 if tier == "quick" else 60
+    p["force"] = ["provide", "inject_default", "loops"]
+    p["provide_bias"] = 3
     return p
 
 
